@@ -64,6 +64,14 @@ enum StatementsOrEmpty {
     Empty(),
 }
 
+/// The variables that one declaration of global variables declares.
+enum GlobalVarSpec {
+    /// One variable at an address. The variable may have no name.
+    Located(Option<Id>, AddressAssignment),
+    /// One or more variables that have a name.
+    Names(Vec<Id>),
+}
+
 fn flatten_statements(mut items: Vec<StatementsOrEmpty>) -> Vec<StmtKind> {
     let mut stmts = Vec::new();
     for stmt_list in items.iter_mut() {
@@ -891,24 +899,31 @@ parser! {
         declaration
       }).collect()
     }
-    // TODO this doesn't pass all information. I suspect the rule from the description is not right
     rule global_var_decl() -> (Vec<VarDecl>) = vs:global_var_spec() _ tok:tok(TokenType::Colon) _ initializer:(l:located_var_spec_init() { l } / f:function_block_type_name() { InitialValueAssignmentKind::FunctionBlock(FunctionBlockInitialValueAssignment{type_name: f, init: vec![] })})? {
-      vs.0.into_iter().map(|name| {
-        let init = initializer.clone().unwrap_or(InitialValueAssignmentKind::None(SourceSpan::join(&tok.span, &tok.span)));
-        VarDecl {
-          identifier: VariableIdentifier::Symbol(name),
+      let init = initializer.unwrap_or(InitialValueAssignmentKind::None(SourceSpan::join(&tok.span, &tok.span)));
+      match vs {
+        GlobalVarSpec::Located(name, address) => vec![VarDecl {
+          identifier: VariableIdentifier::new_direct(name, address),
           var_type: VariableType::Global,
           qualifier: DeclarationQualifier::Unspecified,
-          // TODO this is clearly wrong
           initializer: init,
-        }
-      }).collect()
+        }],
+        GlobalVarSpec::Names(names) => names.into_iter().map(|name| {
+          VarDecl {
+            identifier: VariableIdentifier::Symbol(name),
+            var_type: VariableType::Global,
+            qualifier: DeclarationQualifier::Unspecified,
+            initializer: init.clone(),
+          }
+        }).collect(),
+      }
      }
-    rule global_var_spec() -> (Vec<Id>, Option<AddressAssignment>) = names:global_var_list() {
-      (names, None)
-    } / global_var_name()? _ location() {
-      // TODO this is clearly wrong, but it feel like the spec is wrong here
-      (vec![Id::from("")], None)
+    // A variable at an address comes first because the list of names would take the name
+    // and then a list is not followed by an address.
+    rule global_var_spec() -> GlobalVarSpec = name:global_var_name()? _ address:location() {
+      GlobalVarSpec::Located(name, address)
+    } / names:global_var_list() {
+      GlobalVarSpec::Names(names)
     }
     // TODO this is completely fabricated - it isn't correct.
     rule located_var_spec_init() -> InitialValueAssignmentKind = simple:simple_spec_init() { simple }
